@@ -26,6 +26,7 @@ fn run(c: &mut Case) {
     let mut m = Mix::MOSTLY_VALID;
     // a third of the documents mix unknown-size masters in (the statement speaks of every enclosing *known-size* master)
     m.p_unknown = *c.rng.pick(&[0u64, 0, 30]);
+    let mixed_doc = m.p_unknown > 0;
     m.small = c.rng.chance(1, 2);
     let inp = gen_valid(&mut c.rng, c.tier, &m);
     inp.spec.install();
@@ -276,7 +277,10 @@ fn run(c: &mut Case) {
             continue;
         }
         // always: never backwards
-        let ep = err_pos.unwrap_or(b);
+        // measured from where the junk starts: every byte before it had been consumed when the error was reported, whatever
+        // position the error itself names
+        let _ = err_pos;
+        let ep = b;
         if let Some((i, o)) = after.iter().find(|(i, o)| !i.is_end() && *o < ep) {
             c.violation(format!("C14/moved-backwards/{}", jclass), format!("after recovery item {} reports offset {} which is before the reported error position {}", i.short(), o, ep), wit("moved backwards", &before, &errors, &after, &recovered));
             continue;
@@ -307,6 +311,13 @@ fn run(c: &mut Case) {
             ea = v;
         }
         let sig_tail = format!("{}/depth{}/len{}", jclass, depth.min(4), if jl == 1 { "1" } else if jl <= 4 { "2-4" } else if jl <= 16 { "5-16" } else { "17-40" });
+        if mixed_doc && before.len() > eb.len() && before[..eb.len()] == eb[..] && before[eb.len()..].iter().all(|x| x.0.is_end()) {
+            // only in documents with unknown-size masters (outside the statement's "known-size documents"): a reader may
+            // close the open unknown-size masters when it meets the junk — the same don't-care as in C12/C13; what follows
+            // is then not comparable with the undamaged parse
+            c.count("vacuous_unknown_size_masters_closed_at_the_junk");
+            continue;
+        }
         if before != eb {
             c.violation(format!("C14/items-before-junk-changed/{}", sig_tail), "items before the junk differ from the undamaged parse", wit("items before junk changed", &before, &errors, &after, &recovered));
         } else if more_errors > 0 || errors.len() != 1 {
